@@ -155,6 +155,9 @@ func runNCCommon(env *Env, sc *NCSession) (*NCRun, bool) {
 			settle += 3 * time.Duration(h.DurNS)
 		}
 	}
+	if sc.Force != nil {
+		settle += 3 * sc.Force.Max
+	}
 	out := env.K.Run(done, sc.Deadline(), settle)
 	env.Finish(out)
 	env.Context = nr.Summary
@@ -377,6 +380,18 @@ var c07NHoldPoints = [][2]string{
 
 func genC07N(seed uint64, run int, tier string) Scenario {
 	_, leg, _ := strings.Cut(tier, ":")
+	if leg == "NF" {
+		if s, f, reseed := forcedScenario("C07N", seed, run); s != nil {
+			sc := s.(*NCSession)
+			sc.Force = f
+			if reseed != 0 {
+				sc.SchedSeed = reseed
+			}
+			sc.Class += "/forced"
+
+			return sc
+		}
+	}
 	rs := kernel.RunSeed(seed, "C07N", run)
 	sc, r := genNCFaultBase(rs, "C07N", tier)
 	if len(sc.Ops) > 2 {
@@ -460,8 +475,10 @@ func runC07N(env *Env, s Scenario) {
 	env.K.MaxHolds = 3
 	env.K.PairCover = true
 	env.K.PairStart = map[string]bool{"chan.close.begin": true, "nc.close.done": true}
+	env.K.Force = sc.Force
 	nr, ok := runNCCommon(env, sc)
 	env.Res.Pairs = env.K.OrderedPairs()
+	noteForce(env, sc.Force)
 	env.Res.Shape = fmt.Sprintf("%s holds=%d seg=%s rd=%d", sc.Class, len(sc.Holds), sc.Net.SegMode, sc.ReadDelayUS)
 	env.Res.Nontrivial = true
 	env.Fault("close-"+sc.F.CloseMode, 1)
